@@ -9,6 +9,7 @@ import (
 	"strings"
 
 	"github.com/bmeg/grip/gripql"
+	"github.com/bmeg/grip/kvgraph"
 	"verifsim/gen"
 	"verifsim/model"
 	"verifsim/simkv"
@@ -38,6 +39,11 @@ type cOp struct {
 type c17W struct {
 	Run      RunCfg  `json:"run"`
 	Sessions [][]cOp `json:"sessions"`
+	// Restarted: the sessions meet a server that has just been started over an
+	// existing database (graph g1 was created by an earlier incarnation): its
+	// in-memory state (index field registry, timestamps, caches) is freshly
+	// loaded, or lazily about to be
+	Restarted bool `json:"restarted,omitempty"`
 }
 
 func init() {
@@ -56,7 +62,7 @@ func init() {
 var c17Edges = map[string][3]string{"e1": {"a", "b", "k"}, "e2": {"b", "c", "l"}, "e3": {"c", "a", "k"}, "e4": {"a", "a", "m"}}
 
 func genC17(r *Rng, tier string) *c17W {
-	w := &c17W{Run: GenRunCfg(r, []int{1, 1, 10})}
+	w := &c17W{Run: GenRunCfg(r, []int{1, 1, 10}), Restarted: r.Chance(50)}
 	nc := 2 + r.Intn(3)
 	for c := 0; c < nc; c++ {
 		n := 2 + r.Intn(5)
@@ -151,6 +157,9 @@ func applyEdit(s *model.Store, e c17Edit) {
 	case "addV", "bulk":
 		if g != nil {
 			g.AddVertex(&model.Vertex{ID: e.op.ID, Label: labelOf(e.op), Data: map[string]interface{}{"w": e.value}})
+			if e.op.Op == "bulk" {
+				g.AddVertex(&model.Vertex{ID: bulkSecond(e.op.ID), Label: labelOf(e.op), Data: map[string]interface{}{"w": e.value}})
+			}
 		}
 	case "addE":
 		if g != nil {
@@ -166,6 +175,17 @@ func applyEdit(s *model.Store, e c17Edit) {
 			g.DelEdge(e.op.ID)
 		}
 	}
+}
+
+// bulkSecond is the id of the second vertex of a bulk stream.
+func bulkSecond(id string) string {
+	switch id {
+	case "a":
+		return "b"
+	case "b":
+		return "c"
+	}
+	return "a"
 }
 
 func labelOf(op cOp) string {
@@ -277,9 +297,15 @@ func execC17once(w *c17W, x *Exec) *Outcome {
 	res := x.Bubble(cfg, func(s *simrt.Sim) func() bool {
 		var srv *simServer
 		s.Passive(func() {
-			srv, setupErr = newSimServer(cleanDir(x.WorkDir+"/srv"), simkv.NewDisk(), true)
+			disk := simkv.NewDisk()
+			if w.Restarted {
+				kvgraph.NewKVGraph(disk.Open()).AddGraph("g1") // an earlier incarnation
+			}
+			srv, setupErr = newSimServer(cleanDir(x.WorkDir+"/srv"), disk, true)
 			if setupErr == nil {
-				srv.DB.AddGraph("g1")
+				if !w.Restarted {
+					srv.DB.AddGraph("g1")
+				}
 				srv.Srv.VerifRefreshGraphMap()
 			}
 		})
@@ -329,9 +355,13 @@ func execC17once(w *c17W, x *Exec) *Outcome {
 					case "delGraph":
 						_, err = srv.Srv.DeleteGraph(ctx, &gripql.GraphID{Graph: op.G})
 					case "bulk":
-						st := &bulkStream{RecvErrAt: -1, Elems: []*gripql.GraphElement{{Graph: op.G, Vertex: toPV(&model.Vertex{ID: op.ID, Label: labelOf(op), Data: map[string]interface{}{"w": val}})}}}
+						// two elements: the stream stays open across yields between them
+						st := &bulkStream{RecvErrAt: -1, Elems: []*gripql.GraphElement{
+							{Graph: op.G, Vertex: toPV(&model.Vertex{ID: op.ID, Label: labelOf(op), Data: map[string]interface{}{"w": val}})},
+							{Graph: op.G, Vertex: toPV(&model.Vertex{ID: bulkSecond(op.ID), Label: labelOf(op), Data: map[string]interface{}{"w": val}})},
+						}}
 						err = srv.Srv.BulkAdd(st)
-						if err == nil && (st.Result == nil || st.Result.InsertCount != 1) {
+						if err == nil && (st.Result == nil || st.Result.InsertCount != 2) {
 							err = fmt.Errorf("not inserted")
 						}
 					case "query":
